@@ -290,6 +290,23 @@ CHECKS['C19'] = {
                  'against the API + renderers',
 }
 
+CHECKS['C20'] = {
+    'text': 'Bounded model checking of interleavings with the schedule as the quantified variable: real threads run the real '
+            'Cursor.execute on one shared connection or on separate connections (same / different ledgers); scheduler-controlled '
+            'BQL functions registered through the public extension point make every row / sub-expression evaluation (ysync) and '
+            'points inside compilation (csync, constant-folded) switch points, exactly one thread runs at a time, and the solver '
+            'enumerates every schedule of the first 8 (shared) / 5 (separate) switch points for 11 statement pairs (balance '
+            'referenced twice per row, aggregates with a function of an aggregate, parameters, IN subqueries, FROM ... CLOSE '
+            'table copies, other tables, DISTINCT / ORDER BY); each thread\'s result must equal its serial result. Thorough: all '
+            '36 pairs and a three-thread condition.',
+    'design_ref': 'DESIGN.md section 5, C20',
+    'note': _COMMON_NOTE + ' Interleavings finer than the marked switch points (between arbitrary bytecodes) are outside the '
+            'bound; the switch points cover every place where compiled-statement, compiler, cursor, aggregator, table-copy or '
+            'row-context state is read after having been written.',
+    'technique': 'solver-enumerated schedules (CrossHair/z3 path tree) driving real threads through scheduler-controlled BQL '
+                 'functions; serial-equivalence oracle',
+}
+
 NOT_APPLICABLE = {
     pid: 'check under construction in this session; not claimed yet'
     for pid in ['C06', 'C11', 'C12', 'C13', 'C14', 'C16', 'C17', 'C18', 'C19', 'C20']
